@@ -98,7 +98,7 @@ func (item %[1]s) Insert(tx DB) (out %[1]s, err error) {
 func (item %[1]s) Update(tx DB) (out %[1]s, err error) {
 	row := tx.QueryRow(`+"`"+`UPDATE %[3]s SET (
 		%[5]s
-		) = (
+		) = ROW(
 		%[6]s
 		) WHERE id = $%[8]d RETURNING %[10]s;
 		`+"`,"+`%[7]s, item.%[9]s)
